@@ -132,6 +132,7 @@ type World struct {
 	exPool  *taskpool.TaskPool
 	Started bool
 	Stopped bool
+	Stopping bool // Stop / Shutdown has been invoked (set by the scenario that invokes it)
 	LogErrors []string
 	NewConn func(cs *ConnState) // called when a connection is first seen (before OnOpenHook)
 	states  map[uint64]bool
@@ -266,6 +267,7 @@ func (w *World) Start() error {
 func (w *World) StopAll() {
 	if w.Started && !w.Stopped {
 		w.Stopped = true
+		w.Stopping = true
 		w.G.Stop()
 	}
 	if w.ioPool != nil {
@@ -396,6 +398,9 @@ func (w *World) onClose(c *nbio.Conn, err error) {
 		cls := "accepted"
 		if cs.Dialed {
 			cls = "dialed"
+			if w.Stopping {
+				cls = "dialed/stop"
+			}
 		}
 		w.Fail("C03", "close-without-open", cls, "connection %d: close notification (err=%v) for a connection that never got its open notification / successful dial callback", cs.ID, err)
 	}
